@@ -7,7 +7,7 @@ export GOFLAGS=-mod=mod GOPROXY=off GOSUMDB=off GOTOOLCHAIN=local
 ids=${@:-$(ls harmless)}
 all="C01 C02 C03 C04 C05 C06 C07 C08 C09 C10 C11 C12 C13 C14 C15 C16 C17 C18 C19 C20"
 for id in $ids; do
-  for h in h1 h2; do
+  for h in ${HS:-h1 h2 h3 h4}; do
     d=/verif/harmless/$id/$h/patch.diff
     [ -f "$d" ] || continue
     git -C /repo apply "$d" || { echo "$id $h APPLY-FAILED"; continue; }
